@@ -256,7 +256,8 @@ theorem overB_spec {ctx : Ctx} {G0 : List Group} (hc : CtxOK ctx G0) (A : Config
       (∀ pb ∈ ps, A.policies.any (·.id == pb.id) = false → hasPolicy S pb.id = false) →
       ∃ S', run S (overB ctx A ps st).2 = some S' ∧ GInv ctx G0 S'.groups (overB ctx A ps st).1 ∧
         Mono st (overB ctx A ps st).1 ∧ S'.services = S.services ∧ GroupsLE S S' ∧
-        (∀ id, id ∉ pids ps → findPolicy S'.policies id = findPolicy S.policies id) ∧
+        (∀ id, id ∉ pids ps ∨ A.policies.any (·.id == id) = true →
+          findPolicy S'.policies id = findPolicy S.policies id) ∧
         (∀ id, hasPolicy S' id = true → hasPolicy S id = true ∨ id ∈ pids ps) ∧
         ((pids S.policies).Nodup → (pids S'.policies).Nodup) ∧
         (∀ pb ∈ ps, A.policies.any (·.id == pb.id) = false →
@@ -281,7 +282,10 @@ theorem overB_spec {ctx : Ctx} {G0 : List Group} (hc : CtxOK ctx G0) (A : Config
           (fun p' hp' h => hnew p' (List.mem_cons_of_mem _ hp') h)
       refine ⟨S', hrun, hinv', hmono, hsv, hle, ?_, ?_, hndp, ?_⟩
       · intro id hid
-        exact hframe id fun h => hid (List.mem_cons_of_mem _ h)
+        apply hframe
+        rcases hid with hid | hid
+        · exact Or.inl fun h => hid (List.mem_cons_of_mem _ h)
+        · exact Or.inr hid
       · intro id h
         rcases hnonew id h with h' | h'
         · exact Or.inl h'
@@ -314,8 +318,14 @@ theorem overB_spec {ctx : Ctx} {G0 : List Group} (hc : CtxOK ctx G0) (A : Config
       refine ⟨S', ?_, hinv', hmono1.trans hmono, hsv.trans hsv1, hle1.trans hle, ?_, ?_, ?_, ?_⟩
       · rw [run_append hrun1]; exact hrun
       · intro id hid
-        have h1 : id ≠ pb.id := fun e => hid (e ▸ List.mem_cons_self)
-        have h2 : id ∉ pids rest := fun h => hid (List.mem_cons_of_mem _ h)
+        have h1 : id ≠ pb.id := by
+          rcases hid with hid | hid
+          · exact fun e => hid (e ▸ List.mem_cons_self)
+          · exact fun e => by rw [e, hA] at hid; cases hid
+        have h2 : id ∉ pids rest ∨ A.policies.any (·.id == id) = true := by
+          rcases hid with hid | hid
+          · exact Or.inl fun h => hid (List.mem_cons_of_mem _ h)
+          · exact Or.inr hid
         rw [hframe id h2, hf1 id h1]
       · intro id h
         rcases hnonew id h with h' | h'
@@ -340,7 +350,7 @@ theorem overB_spec {ctx : Ctx} {G0 : List Group} (hc : CtxOK ctx G0) (A : Config
         rcases List.mem_cons.mp hp' with e | e
         · subst e
           refine Realised.transport (st := st1) ⟨⟨p'.id, L⟩, L, p'.rules, p'.rules, hself, List.Perm.refl _, hreal1,
-            List.Perm.refl _, Forall2_SameButId_refl _⟩ hmono (hframe p'.id hpb_notin)
+            List.Perm.refl _, Forall2_SameButId_refl _⟩ hmono (hframe p'.id (Or.inl hpb_notin))
         · exact hres p' e hA'
 
 
